@@ -1,12 +1,17 @@
 """Case generator for lane `attrs` (C16 element/attribute read API, C14 attribute locations).
 
-case: <ctx html|svg|math> <tag bytes hex> <cut | -> <query hex[,query hex]* | ->
+case: <ctx html|svg|math> <tag bytes hex> <cut | -> [<edit[,edit]* | ->] <query hex[,query hex]* | ->
+      edit = s:<name hex>:<value hex> | r:<name hex> | n:<tag name hex>   (set_attribute / remove_attribute / set_tag_name,
+      applied in the element handler; the reads are then repeated)
 
 One start tag per case (document = namespace prefix ++ tag bytes, windows-1252 so that every byte is a
 character): unquoted / single / double quoted values, missing values, duplicates, odd characters in
 names (`"`, `'`, `<`, `=`), `/` placements, upper case, non-ASCII bytes, whitespace of all five kinds,
 unfinished tags, plus a malformed stream (random bytes after `<x`). Cuts everywhere inside the tag.
 Queries: names of the tag's attributes (case-varied), near misses, names the validator rejects.
+Edit scripts (about 45 % of the cases, never on tags with a byte-order mark in a name / value): attribute-less tags,
+duplicates, case variants of the edited name, set-then-remove, remove-then-set, set twice, names the validators reject,
+renames (valid, upper case, invalid first character, forbidden characters, empty); the edited names are always queried.
 """
 
 HTML_TAGS = ["a", "b", "div", "p", "span", "i", "li", "em", "img", "br", "input", "hr", "meta", "link", "area", "base",
@@ -116,6 +121,63 @@ def queries(rng, names):
     return qs[:6]
 
 
+NEW_NAMES = ["zz", "new", "data-n", "Z", "x:y", "id", "class", "\xe9", "a", "b"]
+BAD_ATTR_NAMES = ["", "=b", "a b", "a/b", "a>", "a=", "\ta", "a\x0c", " ", "="]
+TAG_RENAMES = ["span", "DIV", "x-y", "a1", "Sp\xe9", "b", "1a", "-a", "\xe9a", "", "a b", "a/b", "a>b", "a\nb", "a=b",
+               "foreignObject", "q\"r", " a"]
+
+
+def has_bom(t):
+    return "\xef\xbb\xbf" in t or "\xff\xfe" in t or "\xfe\xff" in t
+
+
+def edits(rng, names):
+    """an edit script and the names it touches"""
+    es, touched = [], []
+
+    def target():
+        r = rng.random()
+        if names and r < 0.6:
+            return caseify(rng, rng.choice(names))
+        if r < 0.85:
+            return caseify(rng, rng.choice(NEW_NAMES))
+        return rng.choice(BAD_ATTR_NAMES)
+
+    shape = rng.random()
+    if shape < 0.2:                                   # set then remove the same name (case-varied)
+        n = target()
+        es += [("s", n, rng.choice(ATTR_VALUES)), ("r", caseify(rng, n))]
+        touched.append(n)
+    elif shape < 0.35:                                # remove then set
+        n = target()
+        es += [("r", n), ("s", caseify(rng, n), rng.choice(ATTR_VALUES))]
+        touched.append(n)
+    elif shape < 0.45:                                # set twice
+        n = target()
+        es += [("s", n, rng.choice(ATTR_VALUES)), ("s", caseify(rng, n), rng.choice(ATTR_VALUES))]
+        touched.append(n)
+    else:
+        for _ in range(rng.choice([1, 1, 2, 3, 4])):
+            r = rng.random()
+            if r < 0.45:
+                n = target()
+                es.append(("s", n, rng.choice(ATTR_VALUES)))
+                touched.append(n)
+            elif r < 0.8:
+                n = target()
+                es.append(("r", n))
+                touched.append(n)
+            else:
+                es.append(("n", rng.choice(TAG_RENAMES)))
+    if rng.random() < 0.25:
+        es.insert(rng.randrange(0, len(es) + 1), ("n", rng.choice(TAG_RENAMES)))
+    return es[:5], touched
+
+
+def edit_str(e):
+    return ":".join([e[0]] + [hx(x) for x in e[1:]])
+
+
 def hx(s):
     b = s.encode("latin-1")
     return b.hex() if b else "-"
@@ -142,9 +204,19 @@ def gen(rng, n, tier, pid):
         else:
             cut = str(rng.randrange(0, total + 1))
         qs = queries(rng, names)
+        es = []
+        if rng.random() < 0.45 and not has_bom(t):
+            es, touched = edits(rng, names)
+            qs = [caseify(rng, n) for n in touched] + qs
+            if any(has_bom(x) for e in es for x in e[1:]):
+                es = []
         # the query list is comma separated hex; an empty query cannot be written, use none instead
-        qs = [q for q in qs if q != ""]
-        out.append(f"{ctx} {hx(t)} {cut} {','.join(hx(q) for q in qs) if qs else '-'}")
+        qs = [q for q in qs if q != ""][:7]
+        qstr = ','.join(hx(q) for q in qs) if qs else '-'
+        if es:
+            out.append(f"{ctx} {hx(t)} {cut} {','.join(edit_str(e) for e in es)} {qstr}")
+        else:
+            out.append(f"{ctx} {hx(t)} {cut} {qstr}")
     return out
 
 
@@ -154,10 +226,17 @@ def nontrivial(case, obs):
 
 def stats(cases, obs):
     d = {"cases": len(cases), "with_element": 0, "cut": 0, "svg": 0, "math": 0, "attrs>=2": 0, "self_closing": 0,
-         "lookup_hit": 0, "lookup_miss": 0, "oracle": 0}
+         "lookup_hit": 0, "lookup_miss": 0, "oracle": 0, "edited": 0, "edit_on_attrless": 0, "edit_rejected": 0,
+         "renamed": 0}
     for c, o in zip(cases, obs):
         f = c.split(" ")
         d["cut"] += f[2] != "-"
+        if len(f) == 5:
+            d["edited"] += ":A:" in o
+            d["edit_on_attrless"] += ":-:-:A:" in o or ":-:g" in o.split(":A:")[0][-12:]
+            a = o.split(":A:")[1].split(":")[0] if ":A:" in o else ""
+            d["edit_rejected"] += "e" in a or "t" in a
+            d["renamed"] += any(e.startswith("n:") for e in f[3].split(","))
         d["svg"] += f[0] == "svg"
         d["math"] += f[0] == "math"
         d["with_element"] += "E:" in o
